@@ -134,6 +134,9 @@ def h12_consume_broker(S, backend="redis"):
         S.assume(due >= ts)
         S.tag("origin", "delayed")
 
+    # RabbitMQ only: a live message may be in front of it, so that it waits in the consumer's local buffer first
+    ahead = backend == "rabbit" and S.flag("a_live_message_ahead_in_the_buffer")
+
     async def main(loop):
         key = RoutingKey(topic="job", queue="default", id_="m1", priority=prio)
         params = P.Parameters(timestamp=S.datetime_us(ts), ttl=S.timedelta_us(ttl) if has_ttl else None,
@@ -155,10 +158,18 @@ def h12_consume_broker(S, backend="redis"):
             from fakes import amqp as fa
             br, ch, srv = fa.mk_broker()
             await br.queue_declare("default")
+            if ahead:
+                await br.enqueue(RoutingKey(topic="job", queue="default", id_="m0", priority=prio), "p", P.Parameters(timestamp=S.datetime_us(ts)))
             await br.enqueue(key, "p", params)
             clock.set(now)
             cons = br.get_consumer("default", ["job"])
             await cons.start()
+            if ahead:
+                # both messages are in the consumer's local buffer by the time the first one is asked for
+                import asyncio
+                await asyncio.sleep(0.01)
+                first = await try_consume(cons, timeout=1)
+                out["first"] = None if first is None else first[0].id_
             out["got"] = await try_consume(cons, timeout=1)
             snap = srv.snapshot()
             out["places"] = {"m1": sorted([{"default": "waiting", "default:dead": "dead", "default:delayed": "delayed"}[q]
@@ -174,6 +185,8 @@ def h12_consume_broker(S, backend="redis"):
 
     run_async(main, clock=clock)
     names = out["places"].get("m1", [])
+    if ahead:
+        S.check("live-message-ahead-is-delivered-first", out.get("first") == "m0", info=str(out.get("first")))
     if delayed and out["got"] is None and names == ["delayed"]:
         # withheld because it is not due yet on the server's whole-second clock - not because of its ttl
         S.cover("not-due")
@@ -240,6 +253,51 @@ def h12_job(S):
         S.check("expired-stays-retrievable", out["dead_got"] is not None and out["dead_got"][0].id_ == "m1")
 
 
+def h12_aware(S, backend="rabbit"):
+    """Producers in other time zones: a timestamp carrying a UTC offset expires at timestamp + ttl as an instant (concrete values)."""
+    import datetime as dt
+    import repid.data._parameters as P
+    from repid.data._key import RoutingKey
+    from repid.message import MessageCategory
+    from harness.common import T0
+
+    offset_h = [3, -3, 0][S.pick("producer_utc_offset_hours", 3)]
+    age_s = [1800, 5400][S.pick("age_at_delivery", 2)]          # half an hour or an hour and a half old; the ttl is one hour
+    S.tag("backend", backend)
+    tz = dt.timezone(dt.timedelta(hours=offset_h))
+    t0 = dt.datetime(1970, 1, 1) + dt.timedelta(microseconds=T0)
+    stamp = t0.replace(tzinfo=dt.timezone.utc).astimezone(tz)       # the same instant, written with the producer's offset
+    clock = PinnedClock(T0)
+    out = {}
+
+    async def main(loop):
+        key = RoutingKey(topic="job", queue="default", id_="m1")
+        params = P.Parameters(timestamp=stamp, ttl=real_timedelta(hours=1))
+        if backend == "redis":
+            from fakes import redis as fr
+            br = fr.mk_broker(fr.FakeServer(clock=lambda: clock.time()))
+            await br.enqueue(key, "p", params)
+            clock.set(T0 + age_s * SEC)
+            cons = br.get_consumer("default", ["job"])
+            cons.POLLING_WAIT = 0
+            out["got"] = await cons.consume_or_none()
+        else:
+            from fakes import amqp as fa
+            br, ch, srv = fa.mk_broker()
+            await br.queue_declare("default")
+            await br.enqueue(key, "p", params)
+            clock.set(T0 + age_s * SEC)
+            cons = br.get_consumer("default", ["job"])
+            await cons.start()
+            out["got"] = await try_consume(cons, timeout=1)
+
+    run_async(main, clock=clock)
+    S.cover("aware-timestamp")
+    expired = age_s > 3600
+    S.check("never-handed-over-after-expiry" if expired else "withheld-only-when-expired", (out["got"] is None) == expired,
+            info=f"timestamp {stamp.isoformat()} (ttl 1 h), delivery {age_s} s later: {'handed over' if out['got'] is not None else 'withheld'}")
+
+
 def _cb(backend):
     def scen(S):
         return h12_consume_broker(S, backend)
@@ -263,6 +321,12 @@ HARNESSES = [
     ),
 ]
 HARNESSES += [
+    Harness(name="H12-aware-rabbit", scenario=h12_aware, params={"quick": {"backend": "rabbit"}, "thorough": {"backend": "rabbit"}},
+            bounds={"timestamp": "concrete, written with a UTC offset of +3 h, -3 h or 0", "ttl": "1 h", "delivery": "0.5 h or 1.5 h after the timestamp"},
+            functions=["data/_parameters.py:Parameters.decode", "data/_parameters.py:Parameters.is_overdue"], covers=["aware-timestamp"],
+            stubs=["fake AMQP server; concrete values (time zones are not symbolic)"]),
+    Harness(name="H12-aware-redis", scenario=h12_aware, params={"quick": {"backend": "redis"}, "thorough": {"backend": "redis"}},
+            bounds={"as H12-aware-rabbit": "through the Redis wire format"}, covers=["aware-timestamp"], stubs=["fake Redis server; concrete values"]),
     Harness(name="H12-job", scenario=h12_job, workers=4,
             bounds={"creation instant": "2000..2050", "ttl": "[1 s, 100 y] (Job refuses less)", "deferred_until": "absent or any µs after creation up to 2100",
                     "deferred_by": "absent or [1 s, 40 d]", "delivery instant": "any µs from creation to 2100"},
